@@ -89,7 +89,7 @@ def rand_value(rng, depth, hashable=False, kinds=None):
 
 def rand_key(rng, depth):
     if depth > 0 and rng.random() < 0.2:
-        return tuple(rand_key(rng, depth - 1) for _ in range(rng.choice([0, 1, 2])))
+        return tuple(rand_key(rng, depth - 1) for _ in range(rng.choice([0, 1, 2, 2, 3, 6])))
     v = rand_leaf(rng)
     return v
 
@@ -162,6 +162,26 @@ def line_holds_complete_container(text):
     return False
 
 
+def line_holds_container_key(text):
+    """Is this a `key: value` line whose KEY is a non-empty container (a tuple or frozenset used as a dict key)?"""
+    t = _CLASS.sub(r"\1", text.rstrip())
+    if t.endswith(","):
+        t = t[:-1]
+    if t.rstrip().endswith(OPENERS):
+        t = t + "0" + {"[": "]", "(": ")", "{": "}"}.get(t.rstrip()[-1], "")       # `key: [` -> close it for parsing
+    try:
+        node = ast.parse("{" + t + "}", mode="eval").body
+    except (SyntaxError, ValueError, MemoryError, RecursionError):
+        return False
+    if isinstance(node, ast.Dict) and node.keys and node.keys[0] is not None:
+        k = node.keys[0]
+        if isinstance(k, ast.Tuple):
+            return len(k.elts) > 1
+        if isinstance(k, ast.Call) and k.args and isinstance(k.args[0], (ast.Set, ast.List, ast.Tuple)):
+            return len(k.args[0].elts) > 1
+    return False
+
+
 def check_layout(ctx, out, max_width, indent_size, wit):
     """Structural layout check on the printed lines."""
     ctx.count("mon.layout")
@@ -181,6 +201,11 @@ def check_layout(ctx, out, max_width, indent_size, wit):
             if indent != want:
                 ctx.violation("child-not-at-parent-indent-plus-indent_size",
                               dict(wit, line_no=ln, line=line, want_indent=want))
+                return
+            if cellref.width(line) > max_width and line_holds_container_key(body):
+                # a container used as a dict KEY is printed with repr() on one line whatever the width
+                ctx.violation("container-used-as-dict-key-kept-on-a-line-that-does-not-fit",
+                              dict(wit, line_no=ln, line=line, cells=cellref.width(line)))
                 return
             if is_opener:
                 stack.append(indent)
